@@ -110,15 +110,21 @@ def run(rep, tier):
     if tier == 'quick':
         plan.append(('estimates (first four letters), config ball radius 1, <=2 deviations', [to_cfg(c, est_n=4) for c in ball(1)], 2))
         pairs = [dict(ball(0)[0], from_first=ff, limiter=lim) for ff in (False, True) for lim in LIMITERS]
-        plan.append(('restart mode x limiter x order in which the user lists the controllers (pairwise), P=3, <=2 deviations', [to_cfg(c, est_n=4, restarting_first=rf) for c in pairs for rf in (False, True)], 2))
+        plan.append(('restart mode x limiter x order in which the user lists the controllers (pairwise), P=3, <=2 deviations', [to_cfg(c, est_n=4, restarting_first=rf) for c in pairs for rf in (False, True) if rf or (c['from_first'] and c['limiter'] != 'none')], 2))
         plan.append(('direct restart requests, P in 2..3, <=3 requests', [cfg(P=P, adaptive=None, restart_script=True, restarting={'max_restarts': m, 'restart_from_first_step': ff}) for P in (2, 3) for m in (1, 2) for ff in (False, True)], 3))
     else:
-        plan.append(('estimates, config ball radius 2, <=2 deviations', [to_cfg(c) for c in ball(2)], 2))
-        plan.append(('estimates, config ball radius 2, controllers listed in the other order, <=2 deviations', [to_cfg(c, restarting_first=True) for c in ball(2) if c['limiter'] != 'none' or c['from_first']], 2))
-        plan.append(('estimates, config ball radius 1 incl. P=4, <=3 deviations', [to_cfg(c) for c in ball(1, Ps=(1, 2, 3, 4))], 3))
-        plan.append(('direct restart requests, P in 2..4, <=4 requests', [cfg(P=P, adaptive=None, restart_script=True, restarting={'max_restarts': m, 'restart_from_first_step': ff, 'crash_after_max_restarts': cr}) for P in (2, 3, 4) for m in (0, 1, 2) for ff in (False, True) for cr in (True, False)], 4))
-        plan.append(('estimates + direct requests together, P=3, <=3 deviations', [cfg(P=3, restart_script=True, restarting={'max_restarts': m}) for m in (1, 2)], 3))
+        # sized so that the whole tier is a few hundred thousand executions (about half an hour on 16 cores)
+        plan.append(('estimates (first four letters), config ball radius 2, <=2 deviations', [to_cfg(c, est_n=4) for c in ball(2)], 2))
+        plan.append(('estimates (all six letters), config ball radius 1 incl. P=4, <=2 deviations', [to_cfg(c) for c in ball(1, Ps=(1, 2, 3, 4))], 2))
+        pairs = [dict(ball(0)[0], from_first=ff, limiter=lim) for ff in (False, True) for lim in LIMITERS]
+        plan.append(('restart mode x limiter x order in which the user lists the controllers (pairwise), P=3, <=2 deviations', [to_cfg(c, est_n=4, restarting_first=rf) for c in pairs for rf in (False, True)], 2))
+        plan.append(('estimates (first four letters), controllers listed in the other order, config ball radius 1, <=2 deviations', [to_cfg(c, est_n=4, restarting_first=True) for c in ball(1)], 2))
+        plan.append(('estimates (first four letters), base configuration with P in 2..4, <=3 deviations', [to_cfg(dict(ball(0)[0], P=P), est_n=4) for P in (2, 3, 4)], 3))
+        plan.append(('direct restart requests, P in 2..4, <=3 requests (P<=3: <=4)', [cfg(P=P, adaptive=None, restart_script=True, restarting={'max_restarts': m, 'restart_from_first_step': ff, 'crash_after_max_restarts': cr}) for P in (4,) for m in (0, 1, 2) for ff in (False, True) for cr in (True, False)], 3))
+        plan.append(('direct restart requests, P in 2..3, <=4 requests', [cfg(P=P, adaptive=None, restart_script=True, restarting={'max_restarts': m, 'restart_from_first_step': ff, 'crash_after_max_restarts': cr}) for P in (2, 3) for m in (0, 1, 2) for ff in (False, True) for cr in (True, False)], 4))
+        plan.append(('estimates + direct requests together, P=3, <=3 deviations', [cfg(P=3, restart_script=True, est_n=4, restarting={'max_restarts': m}) for m in (1, 2)], 3))
     plan.append(('restart flag raised in any convergence check (possibly while predecessors still iterate), K=2, <=2 requests', [cfg(P=P, K=2, jac=jac, nblocks=2, adaptive=None, restart_script=True, restart_early=True, restarting={'max_restarts': m, 'restart_from_first_step': ff}) for P in ((2, 3) if tier == 'quick' else (2, 3, 4)) for jac in (False, True) for m in (1, 2) for ff in (False, True)], 2 if tier == 'quick' else 3))
+    plan.append(('AdaptivityPolynomialError (decides only at convergence) with scripted estimates and restart flags raised in any check, K=2, <=2 deviations', [cfg(P=P, K=2, jac=jac, nblocks=2, adaptive={'e_tol': 1.0}, adaptive_family='polynomial', est_n=4, restart_script=True, restart_early=True, restarting={'max_restarts': 2, 'restart_from_first_step': ff}) for P in ((1, 2, 3) if tier == 'quick' else (1, 2, 3, 4)) for jac in (False, True) for ff in (False, True)], 2))
     sec = []
     for P, tend in ((3, 'two_and_a_half'), (3, 'far')) + (((4, 'far'), (2, 'far')) if tier == 'thorough' else ()):
         c = dict(ball(0)[0])
